@@ -28,6 +28,7 @@ ASSUMPTIONS = [
 ]
 
 NONNUM = ["a", None]
+NAN = float("nan")
 
 
 # ----------------------------------------------------------------- strategies
@@ -41,6 +42,7 @@ def node_selectors():
         st.tuples(st.just("end"), st.integers(0, 1)),
         st.tuples(st.just("outside"), st.integers(0, 1), st.sampled_from([F(1, 1000), F(1), F(7, 2)])),
         st.tuples(st.just("nonnum"), st.integers(0, 1)),
+        st.tuples(st.just("nan"), st.integers(0, 1)),
     )
 
 
@@ -76,7 +78,7 @@ def ops():
         st.tuples(st.sampled_from(["insert", "iadd_list", "add_list"]), node_lists()),
         st.tuples(st.sampled_from(["remove", "isub_list", "sub_list"]), node_lists()),
         st.tuples(st.sampled_from(["shift", "iadd_num", "isub_num", "add_num", "sub_num"]),
-                  st.one_of(st.sampled_from(SHIFTS), st.sampled_from(SHIFTS), st.sampled_from(NONNUM))),
+                  st.one_of(st.sampled_from(SHIFTS), st.sampled_from(SHIFTS), st.sampled_from(NONNUM), st.just(NAN))),
         st.tuples(st.sampled_from(["scale", "imul", "itruediv", "mul", "rmul", "truediv"]),
                   st.one_of(st.sampled_from(SCALES), st.sampled_from(SCALES),
                             st.sampled_from(BADSCALES), st.just("a"))),
@@ -109,7 +111,7 @@ def ctor_cases(draw):
     degree = draw(st.one_of(st.none(), st.none(), st.integers(-1, 4)))
     bad = None
     if kind == 9:
-        bad = draw(st.sampled_from(["str-elem", "none-elem", "nested", "none", "int"]))
+        bad = draw(st.sampled_from(["str-elem", "none-elem", "nested", "none", "int", "nan-elem", "nan-elem"]))
     num = draw(st.sampled_from(["frac", "int", "float"]))
     return {"L": L, "degree": degree, "bad": bad, "num": num,
             "container": draw(st.sampled_from(["list", "tuple"]))}
@@ -139,6 +141,8 @@ def resolve_node(sel, U, conv):
         return (a if sel[1] == 0 else b), "end"
     if kind == "outside":
         return (a - sel[2] if sel[1] == 0 else b + sel[2]), "outside"
+    if kind == "nan":
+        return float("nan"), "nonnum"
     return NONNUM[sel[1]], "nonnum"
 
 
@@ -459,6 +463,8 @@ class Machine:
         if name in ("shift", "iadd_num", "isub_num", "add_num", "sub_num"):
             a = arg
             numeric = isinstance(a, (int, F))
+            if isinstance(a, float):  # NaN: not a number, must be rejected like any non-numeric shift
+                numeric = False
             la = lib_value(a, sample) if numeric else a
             sign = -1 if name in ("isub_num", "sub_num") else 1
             if numeric:
@@ -732,6 +738,9 @@ def check_ctor(case, out):
         arg = arg[: len(arg) // 2] + ["a"] + arg[len(arg) // 2:]
     elif bad == "none-elem":
         arg = arg + [None]
+    elif bad == "nan-elem":
+        arg = [float(x) for x in arg]
+        arg = arg[: len(arg) // 2] + [float("nan")] + arg[len(arg) // 2:]
     elif bad == "nested":
         arg = [arg, arg]
     elif bad == "none":
